@@ -682,11 +682,13 @@ Qed.
 (* the fields reset() does not touch *)
 Definition slot_wakers (s : slot) : Z := match s with SSig g => sg_wakers g | SMem m => mm_wakers m end.
 Lemma reset_frame e :
-  e_delta (reset e) = e_delta e /\ e_active (reset e) = e_active e /\
+  e_delta (reset e) = e_delta e /\
   map slot_wakers (e_slots (reset e)) = map slot_wakers (e_slots e).
 Proof.
   unfold reset. simpl. repeat split. rewrite map_map. apply map_ext. intros []; reflexivity.
 Qed.
+Lemma reset_clears_active e : e_active (reset e) = [].
+Proof. reflexivity. Qed.
 
 (* reset followed by a rerun: for ANY engine step function and output function that read only the
    observed fields, the rerun produces the trace of a fresh simulator *)
@@ -706,13 +708,43 @@ Lemma reset_rerun_same_trace step out :
   forall n e, trace step out n (reset e) = trace step out n (fresh e).
 Proof. intros Hs n e. apply rerun_same_trace; [exact Hs|apply reset_restores_init]. Qed.
 
-(* S5: reset() is not a full return to the constructor state — a trigger left active survives ... *)
+(* S5 (fixed by 3953703): with no stale trigger the rerun's timeline has exactly the fresh deadlines ... *)
+Lemma reset_rerun_same_stops e ws n : stops n (rearm 0 (e_active (reset e)) ws) = stops n ws.
+Proof. unfold rearm. simpl. rewrite app_nil_r. reflexivity. Qed.
+
+(* ... whereas the reset() that kept _active_triggers was not a return to the constructor state, and one
+   stale delay trigger gives advance() one more stop (delays of 2 and 5 awaited one after the other,
+   run stopped at 7, rerun) *)
 Definition s5_engine : engine :=
-  mkEng [SSig (mkSig 0 1 1 0)] [] 7 [] [] [PAsync false false true false 3 1] 9 [3] true.
-Lemma reset_not_fresh_refuted : exists e, reset e <> fresh e /\ e_active (reset e) <> [].
-Proof. exists s5_engine. split; vm_compute; discriminate. Qed.
-(* ... and the first step_design of the rerun re-arms its delay waker: advance() then stops at one more
-   point in time (delays of 2 and 5 awaited one after the other, run stopped at 7, rerun) *)
-Lemma reset_rerun_stops_refuted :
-  exists stale ws n, stops n (rearm 0 stale ws) <> stops n ws.
-Proof. exists [5], [2; 4; 7], 4%nat. vm_compute. discriminate. Qed.
+  mkEng [SSig (mkSig 0 1 1 0)] [] 7 [] [] [PAsync false false true false 3 1] 9 [5] true.
+Lemma reset_keeping_triggers_refuted :
+  exists e ws n, observe (reset_keeping_triggers e) <> observe (fresh e) /\
+                 stops n (rearm 0 (e_active (reset_keeping_triggers e)) ws) <> stops n ws.
+Proof. exists s5_engine, [2; 4; 7], 4%nat. split; vm_compute; discriminate. Qed.
+
+(* the set of port names left by _assign_port_names (prenamed + generated) is `bounded`, i.e. it is a legal
+   starting set for _assign_names of the top fragment (hypothesis of assign_names_total) *)
+Definition gen_ports (ports : list (option name * name)) (l : list name) : list name :=
+  map snd (filter (fun p => match fst (fst p) with None => true | Some _ => false end) (combine ports l)).
+
+Lemma port_names_go_bounded ports : forall A l,
+  bounded A -> Forall (fun p => fst p = None -> plain (snd p)) ports ->
+  port_names_go A ports = Ok l -> bounded (A ++ gen_ports ports l).
+Proof.
+  induction ports as [|[[n|] cn] ports IH]; intros A l HB HF H; simpl in H.
+  - inversion H; subst. unfold gen_ports. simpl. rewrite app_nil_r. exact HB.
+  - destruct (port_names_go A ports) as [l'| |] eqn:E; try discriminate. inversion H; subst.
+    inversion HF; subst. unfold gen_ports. simpl. apply IH; auto.
+  - destruct (name_eqb cn []); [discriminate|].
+    destruct (add_name A cn) as [[n' a']|] eqn:E1; [|discriminate].
+    destruct (port_names_go (set_add n' a') ports) as [l'| |] eqn:E; try discriminate. inversion H; subst.
+    inversion HF as [|? ? Hp HF']; subst. simpl in Hp.
+    destruct (add_name_total A cn HB (plain_suffix_ok _ _ (Hp eq_refl))) as (n2 & a2 & E2 & HB2 & _).
+    rewrite E1 in E2. inversion E2; subst n2 a2.
+    apply add_name_spec in E1 as (Hn & -> & _).
+    assert (Hs : set_add n' (A ++ [n']) = A ++ [n']).
+    { unfold set_add. assert (M : mem n' (A ++ [n']) = true) by (apply mem_In, in_or_app; right; left; reflexivity).
+      rewrite M. reflexivity. }
+    rewrite Hs in E. specialize (IH _ _ HB2 HF' E).
+    unfold gen_ports in *. simpl. rewrite <- app_assoc in IH. exact IH.
+Qed.
